@@ -342,6 +342,7 @@ int filter_fix_linedirs (struct filter *chain)
 	int     lineno = 1;
 	bool    in_gen = true;	/* in generated code */
 	bool    last_was_blank = false;
+	bool    continued = false;	/* buf continues a line longer than buf */
 
 	if (!chain)
 		return 0;
@@ -349,6 +350,17 @@ int filter_fix_linedirs (struct filter *chain)
 	while (fgets (buf, (int) readsz, stdin)) {
 
 		regmatch_t m[10];
+		size_t  len = strlen (buf);
+		bool    complete = len > 0 && buf[len - 1] == '\n';
+
+		if (continued) {
+			/* the rest of an over-long line: copy it, count the line once */
+			fputs (buf, stdout);
+			if (complete)
+				lineno++;
+			continued = !complete;
+			continue;
+		}
 
 		/* Check for directive. Note wired-in assumption:
 		 * field reference 1 is line number, 2 is filename.
@@ -417,7 +429,9 @@ int filter_fix_linedirs (struct filter *chain)
 		}
 
 		fputs (buf, stdout);
-		lineno++;
+		if (complete)
+			lineno++;
+		continued = !complete;
 	}
 	fflush (stdout);
 	if (ferror (stdout))
